@@ -58,6 +58,23 @@ struct Case {
     creds: Option<Vec<u8>>,
 }
 
+/// BER allows any non-zero octet for TRUE: the same message with every TRUE written as `octet`
+fn with_true_as(t: &ber::Tlv, octet: u8) -> ber::Tlv {
+    let mut t = t.clone();
+    fn walk(t: &mut ber::Tlv, octet: u8) {
+        match &mut t.body {
+            ber::Body::Prim(v) => {
+                if t.class == ber::UNI && t.tag == 1 && v.as_slice() == [0xff] {
+                    *v = vec![octet];
+                }
+            }
+            ber::Body::Cons(c) => c.iter_mut().for_each(|x| walk(x, octet)),
+        }
+    }
+    walk(&mut t, octet);
+    t
+}
+
 fn judge(rep: &Reporter, c: &Case, bytes: &[u8], evals: &AtomicU64) {
     evals.fetch_add(1, Ordering::Relaxed);
     let replay = || json!({"engine":"c03","hex":ber::hex(bytes)});
@@ -184,7 +201,7 @@ pub fn run(tier: Tier) -> i32 {
         // the same URI twice in a row, once more after another one, and a non-ASCII host
         Some(vec![b"ldap://a/dc=x".to_vec(), b"ldap://a/dc=x".to_vec(), "ldap://réf.example/".as_bytes().to_vec(), b"ldap://a/dc=x".to_vec()]),
     ];
-    let forms = [LenForm::Minimal, LenForm::Long(1), LenForm::Long(2), LenForm::Long(3), LenForm::Long(4)];
+    let forms = [LenForm::Minimal, LenForm::Long(1), LenForm::Long(2), LenForm::Long(3), LenForm::Long(4), LenForm::Long(8), LenForm::Long(9), LenForm::Long(12)];
 
     // product 1: type x rc x (strings, referral, controls rotating)
     let n1 = (TYPES.len() * rcs.len()) as u64;
@@ -241,6 +258,12 @@ pub fn run(tier: Tier) -> i32 {
         let t = c.msg.to_tlv();
         distinct.fetch_add(1, Ordering::Relaxed);
         judge(&rep, &c, &ber::encode(&t), &evals);
+        // criticality TRUE written as other non-zero octets
+        if c.msg.controls.as_ref().map_or(false, |cs| cs.iter().any(|x| x.crit == Some(true))) {
+            for o in [0x01u8, 0x7f, 0x80, 0xfe] {
+                judge(&rep, &c, &ber::encode(&with_true_as(&t, o)), &evals);
+            }
+        }
         // all length fields at once in each form
         for f in &forms[1..] {
             judge(&rep, &c, &ber::encode_forms(&t, &mut |_| *f), &evals);
@@ -276,13 +299,16 @@ pub fn run(tier: Tier) -> i32 {
         let t = c.msg.to_tlv();
         let n = t.nodes();
         if n <= 7 {
-            let total = forms.len().pow(n as u32);
+            // (every combination of the five shortest forms; the longer ones are covered one
+            // node at a time and all at once above)
+            let cf = &forms[..5];
+            let total = cf.len().pow(n as u32);
             for code in 0..total {
                 let mut cc = code;
                 let choice: Vec<LenForm> = (0..n)
                     .map(|_| {
-                        let f = forms[cc % forms.len()];
-                        cc /= forms.len();
+                        let f = cf[cc % cf.len()];
+                        cc /= cf.len();
                         f
                     })
                     .collect();
